@@ -4,6 +4,7 @@ from concurrent.futures import ThreadPoolExecutor
 from . import common as C
 from . import containers as K
 from . import structure as S
+from . import machine as MM
 
 
 class Context:
@@ -118,11 +119,105 @@ def c15_run(ctx):
     ctx.stats["engines"]["ancestors"] = len(ks)
 
 
+BIAS = {
+    "C02": {"p_act": 0.35}, "C03": {"p_act": 0.4, "pass": 0.3}, "C04": {"p_act": 0.45, "pass": 0.15},
+    "C05": {"menu": {"update": 40, "react": 25, "query": 12}},
+    "C08": {"menu": {"planAppend": 30, "succeed": 20, "fail": 4, "update": 40}},
+    "C09": {"menu": {"planAppend": 25, "succeed": 14, "fail": 12, "update": 40, "planClear": 4}},
+    "C10": {"menu": {"planAppend": 40, "planRemove": 12, "planClear": 5, "succeed": 10, "update": 25}},
+    "C12": {"menu": {"save": 8, "load": 16, "copy": 5, "construct": 5, "exit": 6, "enter": 6}},
+    "C16": {"menu": {"attachLogger": 8}},
+    "C17": {"menu": {"copy": 10, "construct": 4, "destroy": 3}},
+    "C11": {"menu": {"replayTransition": 6, "copy": 5}},
+}
+
+
+def machine_run(prop, streams=("random",)):
+    def f(ctx):
+        cfgs = MM.thorough_configs(ctx.rng) if ctx.thorough else MM.quick_configs(ctx.rng)
+        if prop == "C19":
+            cfgs = cfgs[:4]
+        with ThreadPoolExecutor(max_workers=C.NCPU) as ex:
+            built = list(ex.map(MM.build, cfgs))
+        ncase = 400 if ctx.thorough else 90
+        for cfg, (exe, logtxt) in zip(cfgs, built):
+            if exe is None:
+                ctx.failures.append({"what": "machine harness does not compile against the current headers for " + cfg.cfg_line(),
+                                     "log": "\n".join([l for l in logtxt.split("\n") if "error" in l][:12])})
+                continue
+            cases = []
+            if "random" in streams:
+                cases += [MM.gen_case(ctx.rng, cfg, "r%d" % k, ctx.rng.randint(8, 24), BIAS.get(prop)) for k in range(ncase)]
+            if "pingpong" in streams:
+                cases += [MM.pingpong_case(ctx.rng, cfg, "pp%d" % k) for k in range(ncase // 4)]
+            if "replica" in streams and cfg.history:
+                cases += [MM.replica_case(ctx.rng, cfg, "rep%d" % k, ctx.rng.randint(4, 14)) for k in range(ncase // 2)]
+            rc_i, ci, rc_m, cm = MM.run_cases(exe, cases)
+            ctx.stats["programs"] = ctx.stats.get("programs", 0) + 1
+            if rc_i != 0 or len(ci) != len(cases):
+                bad = cases[len(ci) - 1] if 0 < len(ci) <= len(cases) else None
+                ctx.failures.append({"what": "implementation harness crashed (rc=%d) after %d of %d cases" % (rc_i, len(ci), len(cases)),
+                                     "case": bad, "cfg": cfg.cfg_line()})
+                continue
+            if rc_m != 0 or len(cm) != len(cases):
+                ctx.disagreements.append({"what": "model driver stopped after %d of %d cases" % (len(cm), len(cases)), "cfg": cfg.cfg_line()})
+                continue
+            ndis = 0
+            for case, a, b in zip(cases, ci, cm):
+                ctx.stats["evaluations"] += 1
+                ctx.stats["lines"] += len(a)
+                if MM.lifecycle_count(a) > 2:
+                    ctx.stats["distinct"].add(hash(tuple(a[1:])))
+                MM.distribution(ctx.stats, a)
+                for l in a:
+                    if l.startswith("FAIL:") or "CORRUPT" in l:
+                        ctx.failures.append({"what": l, "case": case, "cfg": cfg.cfg_line()})
+                        break
+                if prop == "C11" and case[0].startswith("case rep"):
+                    v = MM.oracle_replica(a)
+                    if v:
+                        ctx.failures.append({"what": v, "case": MM.minimise_case(exe, case, prop, lambda c: bool(MM.oracle_replica((MM.run_cases(exe, [c])[1] or [[]])[0]))), "cfg": cfg.cfg_line()})
+                pa, pb = MM.projected(prop, a), MM.projected(prop, b)
+                if pa != pb:
+                    ndis += 1
+                    if ndis <= 2 and len(ctx.disagreements) < 4:
+                        mc = MM.minimise_case(exe, case, prop)
+                        rc2, mi, rc3, mm_ = MM.run_cases(exe, [mc])
+                        ia, ib = MM.projected(prop, mi[0]) if mi else [], MM.projected(prop, mm_[0]) if mm_ else []
+                        k = next((j for j in range(min(len(ia), len(ib))) if ia[j] != ib[j]), min(len(ia), len(ib)))
+                        ctx.disagreements.append({"cfg": cfg.cfg_line(), "minimal_case": mc, "first_difference_at_projected_line": k,
+                                                  "impl": ia[max(0, k - 3):k + 2], "model": ib[max(0, k - 3):k + 2]})
+                    else:
+                        ctx.disagreements.append({"cfg": cfg.cfg_line()[:60], "case": case[0]}) if len(ctx.disagreements) < 12 else None
+            if len(ctx.samples) < 3 and cases:
+                c0 = ctx.rng.choice(cases)
+                ctx.samples.append({"cfg": cfg.cfg_line()[:120], "beh": [l for l in c0 if l.startswith("beh ")][:4], "ops": [l for l in c0 if l.startswith("op ")][:14]})
+        ctx.extra["distribution"] = ctx.stats.get("dist", {})
+        ctx.extra["configurations"] = [c.cfg_line()[:110] for c in cfgs]
+        ctx.extra["programs"] = ctx.stats.get("programs", 0)
+        ctx.extra["disagreements_checked"] = len(ctx.disagreements)
+    return f
+
+
+TV = "translation_validation"
 REGISTRY = {
     "C13": Spec("FFSM2.Props.C13", ["bitwidth", "contain", "typebits", "buffers"], container_run(["bitstream"])),
     "C14": Spec("FFSM2.Props.C14", ["halving", "find", "ids"], c14_run),
     "C15": Spec("FFSM2.Props.C15", [], c15_run),
     "C20": Spec("FFSM2.Props.C20", ["contain", "buffers"], container_run(["bitarray", "static", "dynamic"])),
+    "C01": Spec(None, ["ids"], machine_run("C01"), level=TV),
+    "C02": Spec(None, ["ids", "config"], machine_run("C02", ("random", "pingpong")), level=TV),
+    "C03": Spec(None, ["ids", "config"], machine_run("C03", ("random", "pingpong")), level=TV),
+    "C04": Spec(None, ["config"], machine_run("C04", ("random", "pingpong")), level=TV),
+    "C05": Spec(None, ["ids"], machine_run("C05"), level=TV),
+    "C06": Spec(None, ["ids"], machine_run("C06"), level=TV),
+    "C07": Spec(None, ["ids"], machine_run("C07"), level=TV),
+    "C08": Spec(None, ["ids", "config"], machine_run("C08"), level=TV),
+    "C09": Spec(None, ["ids", "config"], machine_run("C09"), level=TV),
+    "C11": Spec(None, ["ids"], machine_run("C11", ("random", "replica")), level=TV),
+    "C12": Spec(None, ["ids", "serial", "bitwidth", "contain", "typebits", "buffers"], machine_run("C12"), level=TV),
+    "C16": Spec(None, ["ids"], machine_run("C16"), level=TV),
+    "C17": Spec(None, ["ids"], machine_run("C17"), level=TV),
 }
 
 
@@ -164,7 +259,7 @@ def run_property(ctx):
     rc, nviol = out.finish()
     # 6. evidence
     cov = {
-        "obligations": max(proof["obligations"], 1), "discharged": proof["discharged"],
+        "obligations": proof["obligations"], "discharged": proof["discharged"],
         "checker_cmd": "cd /verif/lean && lake build %s && lake env lean <#print axioms for each theorem>%s" % (
             spec.module, " && lake env leanchecker %s" % spec.module if ctx.thorough else ""),
         "trusted_base": C.TRUSTED_BASE,
@@ -180,6 +275,11 @@ def run_property(ctx):
         "translator_failed_groups": failed_groups,
     }
     cov.update(ctx.extra)
+    if not spec.module:
+        for k in ("obligations", "discharged", "checker_cmd", "theorems", "axioms"):
+            cov.pop(k, None)
+    cov.setdefault("programs", 1)
+    cov.setdefault("disagreements_checked", len(ctx.disagreements))
     if proof.get("leanchecker"):
         cov["leanchecker"] = proof["leanchecker"]
     if spec.explanation:
